@@ -657,6 +657,13 @@ fn case_calc(t: &mut Tape, st: &mut Stats) -> Verdict {
     }
     // the expression is passed as separate arguments or as one argument
     let args: Vec<String> = if t.flip() { text.split(' ').map(|s| s.to_string()).collect() } else { vec![text.clone()] };
+    // a result does not depend on an earlier calc that failed (an incomplete operation, e.g. an operand that was an
+    // undefined variable): one case in six is preceded by such a call
+    if t.chance(1, 6) {
+        let bad: Vec<String> = t.pick(&["10 -", "7 *", "( 2 + 3", "1 +", "4 / 0 +"]).split(' ').map(|s| s.to_string()).collect();
+        let _ = guarded(|| exec(&mut ctx, "calc", &bad));
+        st.class("calc-right-after-a-calc-that-failed");
+    }
     let r = match guarded(|| exec(&mut ctx, "calc", &args)) {
         Ok(r) => r,
         Err((m, l)) => return fail("C16/calc/panic", json!({"expression": text, "panic": m, "location": l})),
@@ -776,7 +783,7 @@ fn case_kept(t: &mut Tape, st: &mut Stats) -> Verdict {
 pub fn property() -> Property {
     Property {
         id: "C16",
-        rule: "(substring-grid) EXHAUSTIVE: 12 strings of <= 6 bytes incl. 2-, 3- and 4-byte characters and combining marks x all forms (no index, one index, two indexes) x every index (pair) in [-len-2, len+2] plus non-numeric indexes; in-range requests on character boundaries must return the slice, out-of-domain requests the error result; (strings) random texts over ASCII/multi-byte alphabets (one in a hundred and fifty 16..200 KiB long) with needles drawn as real substrings, longer than the haystack, unrelated or empty: length/indexof/last_indexof/contains/starts_with/ends_with/equals/is_empty/concat/replace/split/trim*/uppercase/lowercase against byte-level naive references, plus the relations substring(s,0,indexof(s,t))+t is a prefix of s, length of a slice, split joined by the separator gives s; (numbers) less_than/greater_than on exactly known decimal values in several spellings incl. pairs differing in the last digit, pairs of tiny magnitude (down to 1e-22, differing by as little as 1e-22) and non-numeric operands; (calc) expression trees over + - * with parentheses, exact integer division, dyadic decimals and products of large powers of two (results up to 2^120) compared exactly; (range) half-open interval, start>end and non-numeric rejected; (kept-results) 2..5 split / range calls in one script run writing to a pool of two output variables, each result kept under a further variable: at the end of the run every kept array still holds the pieces / interval of its own call. Non-trivial: multi-byte text or non-empty needle / index within the grid; distinct by arguments",
+        rule: "(substring-grid) EXHAUSTIVE: 12 strings of <= 6 bytes incl. 2-, 3- and 4-byte characters and combining marks x all forms (no index, one index, two indexes) x every index (pair) in [-len-2, len+2] plus non-numeric indexes; in-range requests on character boundaries must return the slice, out-of-domain requests the error result; (strings) random texts over ASCII/multi-byte alphabets (one in a hundred and fifty 16..200 KiB long) with needles drawn as real substrings, longer than the haystack, unrelated or empty: length/indexof/last_indexof/contains/starts_with/ends_with/equals/is_empty/concat/replace/split/trim*/uppercase/lowercase against byte-level naive references, plus the relations substring(s,0,indexof(s,t))+t is a prefix of s, length of a slice, split joined by the separator gives s; (numbers) less_than/greater_than on exactly known decimal values in several spellings incl. pairs differing in the last digit, pairs of tiny magnitude (down to 1e-22, differing by as little as 1e-22) and non-numeric operands; (calc) expression trees over + - * with parentheses, exact integer division, dyadic decimals and products of large powers of two (results up to 2^120) compared exactly, one case in six right after a calc call that failed; (range) half-open interval, start>end and non-numeric rejected; (kept-results) 2..5 split / range calls in one script run writing to a pool of two output variables, each result kept under a further variable: at the end of the run every kept array still holds the pieces / interval of its own call. Non-trivial: multi-byte text or non-empty needle / index within the grid; distinct by arguments",
         assumptions: &[
             "substring with an end index equal to the length (and a start index equal to the length in the one-index form) is left unconstrained",
             "values are free of '$', '%' and backslash; calc expressions avoid inexact division, overflow and mixed int/float division",
